@@ -61,10 +61,13 @@ Definition merge_keep (now : N) (w : world) (fid pos : N) (e : entry) : bool :=
 Definition disk_remove (d : disk) (fid : N) : disk := filter (fun fs => negb (fst fs =? fid)) d.
 
 (** reWriteData + the removal of the merged file.  [txid] is the id of the
-    internal transaction (never observable; the driver invents fresh ones). *)
-Definition merge_file (now : N) (w : world) (fid : N) (txid : N) : world :=
+    internal transaction (never observable; the driver invents fresh ones).
+    Returns the new world and whether Merge may go on: when the rewrite
+    transaction fails (fix: "Merge stops when a rewrite transaction fails") the
+    old file stays and Merge returns the error. *)
+Definition merge_file (now : N) (w : world) (fid : N) (txid : N) : world * bool :=
   match disk_get (w_disk w) fid with
-  | None => w
+  | None => (w, true)
   | Some seg =>
       let pend := map (fun pe => let e := snd pe in
                                  mkEntry (e_bucket e) (e_key e) (e_value e) (e_ts e) (e_ttl e) (e_flag e) 0 (e_ds e) txid)
@@ -72,22 +75,27 @@ Definition merge_file (now : N) (w : world) (fid : N) (txid : N) : world :=
       match pend with
       | [] =>
           (* nothing to rewrite: the file is removed unless it is the active one *)
-          if fid =? w_maxfid w then w
-          else mkW (w_opts w) (w_closed w) (disk_remove (w_disk w) fid) (w_maxfid w) (w_woff w) (w_asize w)
-                   (w_ix w) (w_committed w) (w_tx w)
+          if fid =? w_maxfid w then (w, true)
+          else (mkW (w_opts w) (w_closed w) (disk_remove (w_disk w) fid) (w_maxfid w) (w_woff w) (w_asize w)
+                    (w_ix w) (w_committed w) (w_tx w), true)
       | _ =>
           let nf := w_maxfid w + 1 in
           let w1 := mkW (w_opts w) (w_closed w) (disk_create (w_disk w) nf) nf 0 0 (w_ix w) (w_committed w) (w_tx w) in
-          let '(w2, _) := do_commit None w1 (mkTx txid true pend) in
-          mkW (w_opts w2) (w_closed w2) (disk_remove (w_disk w2) fid) (w_maxfid w2) (w_woff w2) (w_asize w2)
-              (w_ix w2) (w_committed w2) (w_tx w)
+          let '(w2, ok) := do_commit None w1 (mkTx txid true pend) in
+          if ok then
+            (mkW (w_opts w2) (w_closed w2) (disk_remove (w_disk w2) fid) (w_maxfid w2) (w_woff w2) (w_asize w2)
+                 (w_ix w2) (w_committed w2) (w_tx w), true)
+          else
+            (mkW (w_opts w2) (w_closed w2) (w_disk w2) (w_maxfid w2) (w_woff w2) (w_asize w2)
+                 (w_ix w2) (w_committed w2) (w_tx w), false)
       end
   end.
 
-Fixpoint merge_files (now : N) (w : world) (fids : list N) (txid : N) : world :=
+Fixpoint merge_files (now : N) (w : world) (fids : list N) (txid : N) : world * bool :=
   match fids with
-  | [] => w
-  | f :: r => merge_files now (merge_file now w f txid) r (txid + 1)
+  | [] => (w, true)
+  | f :: r => let '(w1, ok) := merge_file now w f txid in
+              if ok then merge_files now w1 r (txid + 1) else (w1, false)
   end.
 
 (** DB.Merge: (world, success) *)
@@ -97,5 +105,5 @@ Definition do_merge (now : N) (w : world) (txid0 : N) : world * bool :=
     let fids := disk_fids (w_disk w) in
     match fids with
     | [] | [_] => (w, false)
-    | _ => (merge_files now w fids txid0, true)
+    | _ => merge_files now w fids txid0
     end.
